@@ -341,6 +341,7 @@ func consoleConfigs(tier string) []consoleCfg {
 	add("FieldsOrder=[k1 k0]", func(c *consoleCfg) { c.fieldsOrder = []string{"k1", "k0"} })
 	add("FieldsOrder=[error k1]", func(c *consoleCfg) { c.fieldsOrder = []string{"error", "k1"} })
 	add("FieldsOrder=[zzz post]", func(c *consoleCfg) { c.fieldsOrder = []string{"zzz", "post"} })
+	add("FieldsOrder=[k1 k0 k1]", func(c *consoleCfg) { c.fieldsOrder = []string{"k1", "k0", "k1"} }) // a name listed twice: still rendered once
 	add("FieldsExclude=[k0]", func(c *consoleCfg) { c.fieldsExcl = append(c.fieldsExcl, "k0") })
 	add("FieldsExclude=[error]", func(c *consoleCfg) { c.fieldsExcl = append(c.fieldsExcl, "error") })
 	add("FieldsExclude=[\"\" pre]", func(c *consoleCfg) { c.fieldsExcl = append(c.fieldsExcl, "", "pre") })
